@@ -621,21 +621,22 @@ theorem C01_ctx_after_stop (c : CSt) (op : Op) (p : Addr) (h : (execC c (.base o
     · cases h'
 
 /-- **C01_ctx_answers.**  What the context-only commands do: while the debuggee runs, `frame k` (frame `k` exists, the
-unwinder says its ip is `ip`) focuses (`ip`, `k`) and answers it; `backtrace` and reading locals answer the current
-context and leave it alone; outside a running debuggee, and for a frame that does not exist, the command is refused
-and the context stays.  None of them touches the machine (only the per-command poke log starts afresh). -/
+unwinder says its ip is `ip`) focuses (`ip`, `k`) and answers it; `backtrace` and reading locals (when the unwinder /
+the DWARF evaluation succeed there) answer the current context and leave it alone; outside a running debuggee, for a
+frame that does not exist, and when the inspection fails, the command is refused and the context stays.  None of them touches the machine (only the per-command poke log starts afresh). -/
 theorem C01_ctx_answers (c : CSt) :
     (∀ x, (execC c (.ctx x)).1.m = { c.m with pokes := [] }) ∧
     (c.m.status = .inProgress → ∀ k ip, execC c (.ctx (.frame k (some ip)))
         = ({ m := { c.m with pokes := [] }, ecx := { pc := ip, frame := k } }, .ctx (some { pc := ip, frame := k }))) ∧
-    (c.m.status = .inProgress → ∀ x, x = CtxOp.backtrace ∨ x = CtxOp.locals →
+    (c.m.status = .inProgress → ∀ x, x = CtxOp.backtrace true ∨ x = CtxOp.locals true →
       execC c (.ctx x) = ({ c with m := { c.m with pokes := [] } }, .ctx (some c.ecx))) ∧
-    (∀ k, execC c (.ctx (.frame k none)) = ({ c with m := { c.m with pokes := [] } }, .ctx none)) ∧
+    (∀ x, (∃ k, x = CtxOp.frame k none) ∨ x = CtxOp.backtrace false ∨ x = CtxOp.locals false →
+      execC c (.ctx x) = ({ c with m := { c.m with pokes := [] } }, .ctx none)) ∧
     (c.m.status ≠ .inProgress → ∀ x, execC c (.ctx x) = ({ c with m := { c.m with pokes := [] } }, .ctx none)) := by
-  refine ⟨fun x => execC_ctx_m c x, fun hs k ip => ?_, fun hs x hx => ?_, fun k => ?_, fun hs x => ?_⟩
+  refine ⟨fun x => execC_ctx_m c x, fun hs k ip => ?_, fun hs x hx => ?_, fun x hx => ?_, fun hs x => ?_⟩
   · simp only [execC, execCtx, hs]
   · rcases hx with rfl | rfl <;> simp only [execC, execCtx, hs]
-  · cases hs : c.m.status <;> simp only [execC, execCtx, hs]
+  · rcases hx with ⟨k, rfl⟩ | rfl | rfl <;> cases hs : c.m.status <;> simp only [execC, execCtx, hs]
   · cases hs' : c.m.status with
     | inProgress => exact absurd hs' hs
     | unload => simp only [execC, execCtx, hs']
@@ -648,16 +649,16 @@ selects the caller frame (ip = the return address 0x1008, on which a breakpoint 
 example :
     let τ : List Addr := [0x1000, 0x1004, 0x2000, 0x2004, 0x1008, 0x2000, 0x2004, 0x100c]
     let orig : Code := fun _ => 0x90
-    let cops : List COp := [.base (.brk 0x2000), .base .start, .ctx (.frame 1 (some 0x1008)), .ctx .locals,
-      .base .cont, .ctx .backtrace, .base (.brk 0x100c), .ctx (.frame 1 (some 0x100c)), .base .cont, .base .cont]
+    let cops : List COp := [.base (.brk 0x2000), .base .start, .ctx (.frame 1 (some 0x1008)), (.ctx (.locals true)),
+      .base .cont, (.ctx (.backtrace true)), .base (.brk 0x100c), .ctx (.frame 1 (some 0x100c)), .base .cont, .base .cont]
     Bytes orig ∧ (∀ a ∈ τ, orig a ≠ 0xCC) ∧ τ.head? = some 0x1000 ∧
     NoBreakAtEntry 0x1000 (eraseCtx cops) ∧ NoRemoveAtEntry 0x1000 (eraseCtx cops) := by
   refine ⟨fun _ => by show (0x90 : Nat) < 256; decide, fun _ _ => by show (0x90 : Nat) ≠ 0xCC; decide,
     rfl, by decide, by decide⟩
 
 #guard (execAllC (initC [0x1000, 0x1004, 0x2000, 0x2004, 0x1008, 0x2000, 0x2004, 0x100c] 0x1000 (fun _ => 0x90) 3)
-    [.base (.brk 0x2000), .base .start, .ctx (.frame 1 (some 0x1008)), .ctx .locals, .base .cont, .ctx .backtrace,
-     .base (.brk 0x100c), .ctx (.frame 1 (some 0x100c)), .base .cont, .base .cont, .ctx .backtrace]).2
+    [.base (.brk 0x2000), .base .start, .ctx (.frame 1 (some 0x1008)), (.ctx (.locals true)), .base .cont, (.ctx (.backtrace true)),
+     .base (.brk 0x100c), .ctx (.frame 1 (some 0x100c)), .base .cont, .base .cont, (.ctx (.backtrace true))]).2
   == [.base .ok, .base (.stop 0x2000), .ctx (some ⟨0x1008, 1⟩), .ctx (some ⟨0x1008, 1⟩), .base (.stop 0x2000),
       .ctx (some ⟨0x2000, 0⟩), .base .ok, .ctx (some ⟨0x100c, 1⟩), .base (.stop 0x100c), .base (.exit 3), .ctx none]
 
